@@ -25,7 +25,10 @@ ASSUMPTIONS = [
     "(never generated); inf / nan / 'x' migration entries are modelled",
     "Spec (ms manual reading, DESIGN §9): matrix entries that involve an already joined population are ignored",
 ]
-EXPLANATION = ("Stage 1 (no theorems yet): the Lean Model of build_parser / build_graph / from_ms is tied to the code by "
+EXPLANATION = ("Theorems fromMs_valid_all, fromMs_ignores_*, fromMs_deme_k_is_population_k, the stage lemmas, parsers_agree, "
+               "fromMs_sizes_migs_sem (every command) and the end-to-end refinement fromMs_sem / fromMs_sem_plain on the fragment "
+               "Tame' (counterexample theorems for the known findings outside it) over the Lean Model of build_parser / "
+               "build_graph / from_ms; the Model is tied to the code by "
                "differential comparison (accept/reject and the resolved graph incl. name index); the independent "
                "backwards-time interpreter Spec.MsSem.msSem is compared with graphSem of the code's own graph; "
                "same-time permutations that the Spec says are equivalent must be accepted alike.")
